@@ -515,6 +515,13 @@ func newNode(name string, ip net.IP, opts ...nodeOpt) (*node, error) {
 	for _, o := range opts {
 		o(c)
 	}
+	if c.BindPort != 7946 {
+		// an option chose another port: rebuild the transport on it
+		tr = newSimTransport(ip, c.BindPort)
+		c.Transport = tr
+		c.AdvertisePort = c.BindPort
+		n.T, n.Addr = tr, tr.self
+	}
 	m, err := ml.VNewUnscheduled(c)
 	if err != nil {
 		return nil, err
